@@ -50,3 +50,10 @@ Theorem C08_sharp_value_ignores_rng_state : forall (D : list val -> list (string
      dict [("mu_sne", num mu); ("sigma_sne", num 0)]; VList [dict [("mean", num kap); ("sigma", num 0)]]] [] rg' cu' v (S (S cu')) log.
 Proof. exact sharp_value_ignores_rng. Qed.
 Print Assumptions C08_sharp_value_ignores_rng_state.
+
+(* history independence also needs that no evaluation-path function keeps state in a default argument: none of the ~170 functions writes in
+   place through a parameter whose default is a mutable object; the functions that have such a default at all are listed *)
+Require Import Py.Defaults.
+Theorem C08_no_state_in_default_arguments : all_defaults_safe src_all = true /\ with_mutable_default src_all = [].
+Proof. split; vm_compute; reflexivity. Qed.
+Print Assumptions C08_no_state_in_default_arguments.
